@@ -521,10 +521,10 @@ Proof.
      destruct (pparams m macro true r1) as [[[rs v'] r2]| | | |]; reflexivity).
 Qed.
 
-Lemma pparams_list m macro ts r : ts = KLP :: r -> not_rbrace r = true ->
+Lemma pparams_list m macro r :
   match r with KRP :: _ => False | _ => True end ->
-  pparams (S m) macro false ts = pplist m false r [] None.
-Proof. intros -> _ h. destruct r as [|[] r]; try reflexivity. contradiction. Qed.
+  pparams (S m) macro false (KLP :: r) = pplist m false r [] None.
+Proof. intros h. destruct r as [|[] r]; try reflexivity. contradiction. Qed.
 
 Lemma pparams_empty m macro r1 : pparams (S m) macro false (KLP :: KRP :: r1) = ROk (Some [], false, r1).
 Proof. reflexivity. Qed.
